@@ -108,15 +108,36 @@ a match of the whole pattern is a match of every non-empty boundary prefix of it
 def PrefixSound (E : Engine) (Good : List Char → Prop) : Prop :=
   ∀ ic p q s, Good p → q ≠ [] → BPre q p → E.full ic p s = true → E.pre ic q s = true
 
-theorem isMatch_leaf (E : Engine) {rx : LazyRegex} (h1 : rx.isLeaf = true) (h2 : rx.original ≠ [])
-    (s : List Char) : rx.isMatch E s = E.full rx.ic rx.original s := by
-  have : rx.original.isEmpty = false := by cases h : rx.original <;> simp_all
-  simp [LazyRegex.isMatch, LazyRegex.run, h1, this]
+/-- Running the value built from the current fields of a leaf / node regex. -/
+theorem run_leaf_src (E : Engine) (p : List Char) (ic : Bool) (s : List Char) :
+    (⟨.leaf p, ic⟩ : Compiled).run E s = E.full ic p s := rfl
 
-theorem isMatch_node (E : Engine) {rx : LazyRegex} (h1 : rx.isLeaf = false) (s : List Char) :
+theorem run_node_src (E : Engine) (q : List Char) (ic : Bool) (s : List Char) :
+    (⟨if q.isEmpty then RxSrc.any else .node q, ic⟩ : Compiled).run E s = (q.isEmpty || E.pre ic q s) := by
+  cases h : q.isEmpty <;> simp [Compiled.run, h]
+
+/-- A well-formed leaf regex answers `^original$` whether it runs its stored value (which, by consistency, was built
+from the current `regex` and flag) or builds one on the fly. -/
+theorem isMatch_leaf (E : Engine) {rx : LazyRegex} (h1 : rx.leafWf = true) (h2 : rx.original ≠ [])
+    (s : List Char) : rx.isMatch E s = E.full rx.ic rx.original s := by
+  have hne : rx.original.isEmpty = false := by cases h : rx.original <;> simp_all
+  obtain ⟨hr, hc⟩ := leafWf_iff.1 h1
+  unfold LazyRegex.isMatch
+  cases hcomp : rx.compiled with
+  | none => simp only [hne, Bool.false_eq_true, if_false]; rw [hr]; rfl
+  | some c => rw [consistent_iff.1 hc c hcomp, hr]; rfl
+
+/-- A well-formed node regex answers `^prefix` (everything for the empty prefix), cached or not. -/
+theorem isMatch_node (E : Engine) {rx : LazyRegex} (h1 : rx.nodeWf = true) (s : List Char) :
     rx.isMatch E s = (rx.original.isEmpty || E.pre rx.ic rx.original s) := by
-  simp only [LazyRegex.isMatch, LazyRegex.run, h1]
-  cases rx.original.isEmpty <;> cases rx.compiled <;> simp
+  obtain ⟨hr, hc⟩ := nodeWf_iff.1 h1
+  unfold LazyRegex.isMatch
+  cases hcomp : rx.compiled with
+  | none =>
+    simp only
+    rw [hr, run_node_src]
+    cases rx.original.isEmpty <;> simp
+  | some c => simp only; rw [consistent_iff.1 hc c hcomp, hr, run_node_src]
 
 theorem find_empty (E : Engine) (ic : Bool) (s : List Char) : (Item.empty ic : Item ι V).find E s = [] := by
   rw [Item.find]
